@@ -16,7 +16,8 @@ SPEC = {
     "rule": ("cases = (digraph shape of W-DIG/W-NAMED) x (every combination of per-node out-arc insertion orders) x "
              "(additional start/end variant); inside each case every multiplicity vector x in {0..B}^E that is balanced at "
              "inner nodes, uses one source arc and one sink arc and whose support is connected from the start is injected "
-             "as solver output (x 3 noise patterns, and in 2-layer stacks) into the real get_solution_walks(); "
+             "as solver output (x 3 noise patterns, and in 2-layer stacks) into the real get_solution_walks(); every walk obtained is also "
+             "passed through the node-mode hand-over (its node-expanded form through NodeExpandedDiGraph.get_condensed_paths) and must come back unchanged; "
              "non-trivial = distinct (case, vector) whose walk repeats a node (a closed sub-walk had to be spliced)"),
     "assumptions": [
         "solver values are within 1e-7 of integers (the wrapper sets integrality tolerance 1e-9)",
@@ -87,6 +88,13 @@ def _stub_class():
     return Stub
 
 
+def _weighted(G):
+    H = G.copy()
+    for v in H.nodes():
+        H.nodes[v]["flow"] = 1
+    return H
+
+
 def eulerian_vectors(st, E, B):
     """All (full multiplicity dict over st.edges, se, te) that form one s-t walk."""
     SE = list(st.edges())
@@ -152,6 +160,7 @@ def run(case):
             return f"{ctx}: walk {walk} does not start after {se} / end before {te}"
         return None
 
+    NX = None
     for idx, (full, se, te) in enumerate(vecs):
         for noise in (0.0, 1e-7, -1e-7):
             m = Stub(st, 1)
@@ -171,6 +180,19 @@ def run(case):
             w = walks[0]
         except Exception:
             pass
+        if w and not err and not case["starts"] and not case["ends"]:
+            # node mode: the model works on the node-expanded graph and hands the user the condensed walk; the walk u,v,w,...
+            # is u.0,u.1,v.0,v.1,... internally (a self-loop v->v shows as v.0,v.1,v.0,v.1) and must come back unchanged
+            if NX is None:
+                NX = fp.NodeExpandedDiGraph(_weighted(G), node_flow_attr="flow")
+            internal = [x for v in w for x in (v + ".0", v + ".1")]
+            try:
+                back = NX.get_condensed_paths([list(internal)])
+            except Exception as ex:  # noqa
+                back = f"raised {type(ex).__name__}: {ex}"
+            tags["node_mode_handover"] += 1
+            if back != [w]:
+                viol.append({"kind": "node_mode_walk_mismatch", "msg": f"walk {w} (internal {internal}) is handed to the user in node mode as {back}"})
         if w and len(set(w)) < len(w):
             nt += 1
             tags["spliced_closed_walk"] += 1
